@@ -14,6 +14,7 @@
 #include <iostream>
 #include <fstream>
 #include <functional>
+#include <algorithm>
 #include <unistd.h>
 #include <sys/mman.h>
 #include <sys/stat.h>
@@ -84,6 +85,7 @@ typedef std::vector<std::string> Toks;
 #define OUT(...) do { printf(__VA_ARGS__); putchar('\n'); } while (0)
 
 #include "drv_enc.inc"
+#include "drv_time.inc"
 #include "drv_more.inc"
 
 int main(int argc, char** argv) {
@@ -98,6 +100,7 @@ int main(int argc, char** argv) {
         try {
             if (c == "CASE") { reset_all(); OUT("CASE %s", t.size() > 1 ? t[1].c_str() : ""); }
             else if (c == "E") cmd_enc(t);
+            else if (c == "T") cmd_time(t);
             else if (!cmd_more(t)) OUT("? unknown command %s", c.c_str());
         }
         catch (std::exception& e) { OUT("throw %s", classify(e)); }
